@@ -295,6 +295,15 @@ Proof. intros. unfold amp. apply scale3_chain. assumption. Qed.
 Theorem scale3_gauge_independent (ts : list (nat * T3)) k k' c s :
   (k < length ts)%nat -> (k' < length ts)%nat -> amp (scale_at3 k c ts) s = amp (scale_at3 k' c ts) s.
 Proof. intros H H'. rewrite !scale3_amp by assumption. reflexivity. Qed.
+(* homogeneity: scaling twice = scaling by the product, for EVERY pair of ring elements (no threshold, no branch on c) *)
+Theorem scale3_compose (ts : list (nat * T3)) k k' c c' s :
+  (k < length ts)%nat -> (k' < length ts)%nat ->
+  amp (scale_at3 k' c' (scale_at3 k c ts)) s = (c' *r c) *r amp ts s.
+Proof.
+  intros H H'. assert (Hl : length (scale_at3 k c ts) = length ts).
+  { clear. revert k. induction ts as [|[d t] ts IH]; intros k; [reflexivity|]. destruct k; cbn [scale_at3 length]; [reflexivity|]. rewrite IH. reflexivity. }
+  rewrite scale3_amp by (rewrite Hl; exact H'). rewrite scale3_amp by exact H. ring.
+Qed.
 Theorem scale4_opamp (ts : list (nat * T4)) k c su sd : (k < length ts)%nat ->
   opamp (scale_at4 k c ts) su sd = c *r opamp ts su sd.
 Proof. intros. unfold opamp. apply scale4_chain. assumption. Qed.
@@ -404,6 +413,21 @@ Proof.
   intros H1 H2 H3. unfold amp, opamp.
   pose proof (apply3_chain W a dqs 1 s' 0%nat 0%nat 0%nat 0%nat H1 H2 (Nat.lt_0_1) H3) as H.
   cbn [Nat.mul Nat.add] in H. exact H.
+Qed.
+
+(* homogeneity of the operator-state product in the state: O (c a) = c (O a) *)
+Theorem apply3_homogeneous (W : list (nat * T4)) (a : list (nat * T3)) dqs k c s' :
+  length W = length a -> length dqs = length a -> (0 < lastdim 1 a)%nat -> (k < length a)%nat ->
+  amp (apply3 1 dqs W (scale_at3 k c a)) s' = c *r amp (apply3 1 dqs W a) s'.
+Proof.
+  intros H1 H2 H3 Hk.
+  assert (Hl : length (scale_at3 k c a) = length a).
+  { clear. revert k. induction a as [|[d t] a IH]; intros k; [reflexivity|]. destruct k; cbn [scale_at3 length]; [reflexivity|]. rewrite IH. reflexivity. }
+  assert (Hd : lastdim 1 (scale_at3 k c a) = lastdim 1 a).
+  { clear. generalize 1%nat. revert k. induction a as [|[d t] a IH]; intros k n; [reflexivity|]. destruct k; cbn [scale_at3]; [reflexivity|].
+    rewrite !lastdim_cons. apply IH. }
+  rewrite apply3_amp by (rewrite ?Hl, ?Hd; assumption). rewrite apply3_amp by assumption.
+  rewrite <- sumcfg_scale_l. apply sumcfg_ext; intros s. rewrite scale3_amp by exact Hk. ring.
 Qed.
 
 (* operator on operator (Mpo.apply with an Mpo / MpDm argument, MpDm.apply): column by column *)
